@@ -333,29 +333,6 @@ theorem two_majorities_need_honest_equivocator (vals : List Val) (x y z : List B
   have h := quorum_intersection vals x y hp hx hy
   omega
 
-/-! ### The full invariant (OPEN: stated, carried by the monitors `counted_once` / `maj23_has_two_thirds` on the
-implementation and by the correspondence run, not yet proved in Lean) -/
-
-/-- power of the validators that have a vote recorded in `votes` -/
-def powerOfSome : List Val → List (Option Vote) → Int
-  | v :: vs, o :: os => (if o.isSome then v.power else 0) + powerOfSome vs os
-  | _, _ => 0
-
-/-- every tally is the power of the distinct validators with a recorded vote; recorded votes verify and are filed
-under their own index and block id; the bit arrays mirror the vote slices; the majority block has > 2/3 -/
-def VoteSetInv (verify : Verify) (s : VS) : Prop :=
-  s.votes.length = s.vals.length ∧ s.bits = s.votes.map Option.isSome ∧ s.sum = powerOfSome s.vals s.votes ∧
-  (∀ k bv, (k, bv) ∈ s.byBlock → bv.votes.length = s.vals.length ∧ bv.bits = bv.votes.map Option.isSome ∧
-      bv.sum = powerOfSome s.vals bv.votes ∧
-      ∀ (i : Nat) (v : Vote) (val : Val), bv.votes[i]? = some (some v) → s.vals[i]? = some val →
-        v.bid = k ∧ v.idx = i ∧ v.height = s.height ∧ v.round = s.round ∧ v.type = s.type ∧
-        verify val.key (msgOf s.chain v) v.sig = true ∧ (s.votes.getD i none).isSome) ∧
-  (∀ b, s.maj23 = some b → ∃ bv, lookup s.byBlock b = some bv ∧ 3 * bv.sum > 2 * sumPowers s.vals)
-
-def C03_voteset_invariant_statement : Prop :=
-  ∀ (verify : Verify) (s s' : VS), NoOverflow s.vals → VoteSetInv verify s →
-    Run verify s s' → VoteSetInv verify s'
-
 /-! ### Non-vacuity -/
 
 def nvVals : List Val := (List.range 4).map (fun i => { addr := [UInt8.ofNat i], kaddr := [UInt8.ofNat i], key := i, power := 1 })
